@@ -36,7 +36,15 @@ Judge(r) ==
            stray == {e.oid : e \in (obs \ exp) \cup (exp \ obs)}
            supers == {o.oid : o \in {x \in P.occs : x.name = "super"}} IN
        IF obs # exp
-         THEN IF \E it \in AliasedItems(files[r.main]) : NodeOf(P, it.oid) = d
+         THEN IF d \in ReassignedVars(P)
+                THEN <<V(r.id, "deviation", "VarReassignmentMovesDefinition", "edit set " \o ToString(obs) \o " expected " \o ToString(exp) \o at)>>
+              ELSE IF r.oid \in SpecialOids(files, "loop")
+                THEN <<V(r.id, "deviation", "LoopIndexLocatedAtCount", "rename started on a loop count: edit set " \o ToString(obs) \o " expected " \o ToString(exp) \o at)>>
+              ELSE IF stray # {} /\ stray \subseteq (SpecialOids(files, "ifdef") \cup SpecialOids(files, "fuse") \cup SpecialOids(files, "loop"))
+                THEN <<V(r.id, "deviation", IF stray \cap SpecialOids(files, "ifdef") # {} THEN "DefinedOperandNotAUsage"
+                                            ELSE IF stray \cap SpecialOids(files, "fuse") # {} THEN "FileNameInterpolationNotAUsage" ELSE "LoopIndexLocatedAtCount",
+                       "edit set " \o ToString(obs) \o " expected " \o ToString(exp) \o at)>>
+              ELSE IF \E it \in AliasedItems(files[r.main]) : NodeOf(P, it.oid) = d
                 (* the symbol is imported as `a as x': the edit blanks that argument and renames the uses of the alias *)
                 THEN <<V(r.id, "deviation", "RenameBlanksAliasedImport", "edit set " \o ToString(obs) \o " expected " \o ToString(exp) \o at)>>
               ELSE IF obs = {} /\ occ.file # r.main      \* inside an imported file the position is also inside the file definition, which is not renamable
@@ -57,6 +65,14 @@ Judge(r) ==
                 ambAfter == \E o \in P2.occs : Earlier(P2, o, ord) # {} /\ (o.node = d \/ d \in Earlier(P2, o, ord)) IN
             IF ~r.backDone /\ occ.file # r.main
               THEN <<V(r.id, "deviation", "ImportedFileSpanShadowsSymbols", "rename back inside an imported file returned no edit" \o at)>>
+            ELSE IF r.oid \in SpecialOids(files, "loop")
+              THEN <<V(r.id, "deviation", "LoopIndexLocatedAtCount", "rename back started on a loop count" \o at)>>
+            ELSE IF d \in ReassignedVars(P)
+              THEN <<V(r.id, "deviation", "VarReassignmentMovesDefinition", "rename back of a variable that is assigned twice" \o at)>>
+            ELSE IF \E o \in P.occs : o.node = d /\ o.oid \in SpecialOids(files, "ifdef")
+              THEN <<V(r.id, "deviation", "DefinedOperandNotAUsage", "rename back misses the operand of defined()" \o at)>>
+            ELSE IF \E o \in P.occs : o.node = d /\ o.oid \in SpecialOids(files, "fuse")
+              THEN <<V(r.id, "deviation", "FileNameInterpolationNotAUsage", "rename back misses the .file interpolation" \o at)>>
             ELSE IF ShadowedCalls(P2, d) # {}
               THEN <<V(r.id, "deviation", "RenameSkipsShadowedMacroCall", "rename back leaves a call of the macro unchanged that sits next to a non-macro symbol of the same name" \o at)>>
             ELSE IF ambAfter
